@@ -4,6 +4,7 @@ from ..core import queries as Q
 from ..core.program import fmt_term, fmt_atom, CAST_OPS
 
 META = {
+    "technique": "static analysis: repository-specific structure / guard-dominance / path rules over LLVM IR (CFG, SSA, resolved call graph), plus table extraction of the twelve match functions by finite evaluation of their IR over an adversarial string set, compared with the matchers' definitions",
     "explanation": (
         "(1) R-TABLE: the matcher table's constant initialiser has exactly the six names of the statement, each with two "
         "distinct functions defined in fetch.c, the multi-operand flag only on containsAllOf; "
@@ -109,13 +110,9 @@ def clause2_siblings(ctx, P, rows):
         if ok:
             ctx.ob("C16.2 R-SIB", fi, "twin:" + r["name"], True, "siblings agree")
         else:
-            # the two differ in FORM; whether they still agree in what they compute is not something this comparison can tell (a
-            # behaviour-preserving rewrite of one of them looks the same to it as a slip) - the role and bound rules below decide what
-            # they can, and the pair is reported as 'not decided', never as a violation and never as a pass
-            ctx.ob("C16.2 R-SIB", fi, "twin:" + r["name"], True, "siblings differ in form (%s); agreement decided by the role and bound rules only" % diff)
-            ctx.broken("C16.2 R-SIB: case-insensitive %s is no longer the instruction-wise twin of %s up to {strcmp->jet_strcasecmp, "
-                       "strncmp->jet_strncasecmp, strstr->jet_strcasestr} (%s): their agreement cannot be decided by comparison of form" %
-                       (fi.srcname, fs.srcname, diff))
+            # the two differ in FORM: that is no verdict (a behaviour-preserving rewrite of one of them looks the same to this
+            # comparison as a slip) - what both compute is decided by the matcher tables (C16.2 R-TABLE) and the role rules below
+            ctx.ob("C16.2 R-SIB", fi, "twin:" + r["name"], True, "siblings differ in form (%s); decided by their tables" % diff)
         # sensitive function uses only case-sensitive primitives, and vice versa
         cs_calls = {P.srcname_of(c.callee) for c in fs.calls() if c.callee} - {"strlen"}
         ci_calls = {P.srcname_of(c.callee) for c in fi.calls() if c.callee} - {"strlen"}
@@ -153,6 +150,58 @@ def clause2_siblings(ctx, P, rows):
                 ctx.ob("C16.2 R-PAIR", f, "%s:%s" % (r["name"], Q.ordinal_site(f, c, P)), ok, msg)
     ctx.floor("C16.2 R-SIB", 12)
     ctx.floor("C16.2 R-PAIR", 6)
+
+
+STRINGS = [b"", b"a", b"A", b"ab", b"aB", b"b", b"abc", b"ABC", b"bc", b"xabc", b"abcx", b"ab/c", b"\xc3\xa9", b"\xc3\x89",
+           b"status", b"Status", b"a/status", b"a/STATUS/b"]
+
+
+def clause2b_matcher_tables(ctx, P, rows):
+    """'selects exactly the elements whose path satisfies the matcher, byte-wise or ASCII case-insensitively': each of the twelve
+    match functions is evaluated as a table - finite evaluation of its IR (struct path_matcher as a read-only object, the C
+    library's string functions and the jet_* wrappers by their meaning, which C16.2 R-SIB establishes for the wrappers) on every
+    (operand, path) pair of an adversarial string set (empty, prefixes/suffixes of each other, differing only in case, non-ASCII,
+    longer than the path; for containsAllOf every ordered pair of operands) - and compared with the matcher's definition.  This
+    decides the matchers on these inputs whatever form the functions are written in"""
+    from ..core.feval import FEval, OutOfInput
+
+    def low(b):
+        return bytes(c + 32 if 65 <= c <= 90 else c for c in b)
+    REF = {"equals": lambda ops, p: p == ops[0], "equalsNot": lambda ops, p: p != ops[0], "contains": lambda ops, p: ops[0] in p,
+           "startsWith": lambda ops, p: p.startswith(ops[0]), "endsWith": lambda ops, p: p.endswith(ops[0]),
+           "containsAllOf": lambda ops, p: all(o in p for o in ops)}
+    n = 0
+    for r in rows:
+        for col, fold in (("cs", False), ("ci", True)):
+            f = P.functions.get(r[col] or "")
+            if f is None:
+                continue
+            ev = FEval(P, f, None, ptr_param=None)
+            opsets = [[o] for o in STRINGS]
+            if r["name"] == "containsAllOf":
+                opsets += [[a, b] for a in STRINGS[:12] for b in STRINGS[:12]]
+            bad = None
+            try:
+                for ops in opsets:
+                    arrays = {("op", k): o + b"\0" for k, o in enumerate(ops)}
+                    cells = {(("f", 1),): len(ops)}
+                    for k in range(len(ops)):
+                        cells[(("f", 2), ("a", k))] = ("arr", ("op", k), 0)
+                    for path in STRINGS:
+                        arrays[1] = path + b"\0"
+                        res, _ = ev.run({}, {}, arrays=arrays, objs={0: cells}, max_steps=20000)
+                        n += 1
+                        want = REF[r["name"]]([low(o) for o in ops], low(path)) if fold else REF[r["name"]](ops, path)
+                        if bool(res) != bool(want) and bad is None:
+                            bad = (ops, path, res, want)
+            except (AnalysisBroken, OutOfInput) as e:
+                ctx.broken("C16.2 R-TABLE: %s cannot be evaluated as a table: %s" % (f.srcname, e))
+                continue
+            ctx.ob("C16.2 R-TABLE", f, "matcher-table:" + r["name"] + (":ignore-case" if fold else ""), bad is None,
+                   ("%s() answers %s for the operand(s) %s and the path %r, the matcher %s%s says %s" %
+                    (f.srcname, "match" if bad[2] else "no match", [bytes(o) for o in bad[0]], bytes(bad[1]), r["name"],
+                     " (ASCII case-insensitive)" if fold else "", "match" if bad[3] else "no match")) if bad else "table agrees with the definition")
+    ctx.count("matcher_evaluations", n)
 
 
 def clause3_selection(ctx, P):
@@ -690,6 +739,7 @@ def run(ctx):
         clause8_get_walks_all(ctx, P, cg)
         rows = clause1_table(ctx, P)
         clause2_siblings(ctx, P, rows)
+        clause2b_matcher_tables(ctx, P, rows)
         clause2b_casefold(ctx, P)
         clause3_selection(ctx, P)
         clause3b_option_key(ctx, P)
